@@ -275,7 +275,8 @@ def rand_tfsf_region(r, name, shape, region, T, faces=None, allow_switch=True):
 def rand_mode_source(r, name, shape, region, T, allow_switch=True):
     """Mode source on a full transverse plane of `region` (the mode solver runs on whatever materials lie there)."""
     axis = int(r.integers(0, 3))
-    if region[axis][1] - region[axis][0] < 3 or any(region[a][1] - region[a][0] < 4 for a in range(3) if a != axis):
+    # >= 6 x 6 transverse cells: the external eigen-solver (ARPACK) gives up on smaller homogeneous cross-sections
+    if region[axis][1] - region[axis][0] < 3 or any(region[a][1] - region[a][0] < 6 for a in range(3) if a != axis):
         return None
     pos = int(r.integers(region[axis][0] + 1, region[axis][1] - 1))
     box = [list(region[a]) for a in range(3)]
